@@ -489,3 +489,318 @@ fn c06_finding_duplicate_sequence_id_counts() {
     a.header.sequence_id = stored.header.sequence_id;
     assert!(!list.is_announce_message_qualified(&a));
 }
+
+
+// ---------------------------------------------------------------------------------------------------------
+// MODULAR CALL CHAIN for "a re-registered message is stored with the age it is handed in with" (C06: the
+// Erbest put back after a BMCA run keeps ageing and expires with the window). Each function is checked against
+// the *contract* of its callee (a recording stub), so no harness moves 250-byte records through
+// ArrayVec::retain / remove:
+//   Bmca::take_best_port_announce_message  --calls-->  Bmca::reregister_announce_message(h, m, best.age)
+//   Bmca::reregister_announce_message      --calls-->  ForeignMasterList::register_announce_message(h, m, age)
+//   ForeignMasterList::register_...        --calls-->  ForeignMaster::register_announce_message(*h, *m, interval, age)
+//   ForeignMaster::register_...            ==  purge_old_messages; push (h, m, age) as the newest message
+// ---------------------------------------------------------------------------------------------------------
+pub(crate) static mut REC_CALLS: u32 = 0;
+pub(crate) static mut REC_ARGS: Option<(Header, AnnounceMessage, i128)> = None;
+pub(crate) static mut REC_INTERVAL: Option<TimeInterval> = None;
+pub(crate) fn rec_reset() { unsafe { REC_CALLS = 0; REC_ARGS = None; REC_INTERVAL = None; } }
+pub(crate) fn rec_calls() -> u32 { unsafe { REC_CALLS } }
+pub(crate) fn rec_args() -> Option<(Header, AnnounceMessage, i128)> { unsafe { REC_ARGS } }
+pub(crate) fn rec_note(h: Header, m: AnnounceMessage, age: Duration) { unsafe { REC_CALLS += 1; REC_ARGS = Some((h, m, dur_bits(age))); } }
+
+/// number of messages the purge stub removes (from the old end) -- chosen by the harness
+pub(crate) static mut PURGE_DROPS: usize = 0;
+
+impl ForeignMaster {
+    /// recording stand-in for ForeignMaster::register_announce_message
+    pub(crate) fn verif_rec_register(&mut self, header: Header, announce_message: AnnounceMessage, announce_interval: TimeInterval, age: Duration) {
+        rec_note(header, announce_message, age);
+        unsafe { REC_INTERVAL = Some(announce_interval); }
+    }
+    /// stand-in for purge_old_messages in the record-level harness: removes nothing or everything, as the
+    /// harness chose (its real contract -- exactly the messages of age >= 4 intervals go -- is
+    /// c06_step_age_ages_and_expires); the record-level harness needs only "some stored messages may go"
+    pub(crate) fn verif_stub_purge(&mut self, _announce_interval: TimeInterval) -> bool {
+        if unsafe { PURGE_DROPS } > 0 { self.announce_messages.clear(); }
+        self.announce_messages.is_empty()
+    }
+}
+impl ForeignMasterList {
+    /// recording stand-in for ForeignMasterList::register_announce_message
+    pub(crate) fn verif_rec_register(&mut self, header: &Header, announce_message: &AnnounceMessage, age: Duration) {
+        rec_note(*header, *announce_message, age);
+    }
+    /// stand-in for take_qualified_announce_messages with its contract's shape: hands out at most two stored
+    /// messages of foreign senders (its real contract is c06_take_qualified_needs_two_messages__*)
+    pub(crate) fn verif_stub_take_qualified(&mut self) -> impl Iterator<Item = ForeignAnnounceMessage> {
+        let mut out = ArrayVec::<_, MAX_FOREIGN_MASTERS>::new();
+        let n: u8 = kani::any();
+        kani::assume(n <= 2);
+        let mut k = 0;
+        while k < 2 {
+            if k < n {
+                let m = any_announce();
+                let age: i128 = kani::any();
+                kani::assume(age >= 0 && age < (1i128 << 100));
+                out.push(ForeignAnnounceMessage { header: m.header, message: m, age: dur_from_bits(age) });
+            }
+            k += 1;
+        }
+        unsafe { OFFERED = n; }
+        out.into_iter()
+    }
+}
+pub(crate) static mut OFFERED: u8 = 0;
+pub(crate) fn offered() -> u8 { unsafe { OFFERED } }
+
+/// ForeignMasterList::register_announce_message: a qualified message of a known sender is handed to that
+/// sender's record *with the age and interval given* (one call); an unknown sender gets a new record; an
+/// unqualified message changes nothing and reaches no record.
+fn c06_list_register_hands_age_to_record_on(shape: [usize; 2]) {
+    let own = any_port_identity();
+    let interval = any_time_interval();
+    let mut list = list_of_shape(own, interval, shape);
+    let a = any_arrival();
+    let h = any_header();
+    let age: i128 = kani::any();
+    kani::assume(age >= 0 && age < (1i128 << 100));
+    let qualified = list.is_announce_message_qualified(&a);
+    let n0 = n_masters(&list);
+    let idx = index_of(&list, a.header.source_port_identity, KM);
+    let total0 = total_messages(&list, KM);
+    rec_reset();
+
+    list.register_announce_message(&h, &a, dur_from_bits(age));
+
+    if qualified && idx.is_some() {
+        assert!(rec_calls() == 1);
+        let (rh, rm, rage) = rec_args().unwrap();
+        assert!(rh == h && rm == a && rage == age);
+        assert!(unsafe { REC_INTERVAL } == Some(interval));
+        assert!(n_masters(&list) == n0 && total_messages(&list, KM) == total0);
+    } else {
+        assert!(rec_calls() == 0);
+        if qualified {
+            assert!(n_masters(&list) == n0 + 1);
+            assert!(list.foreign_masters[n0].foreign_master_port_identity == a.header.source_port_identity);
+        } else {
+            assert!(n_masters(&list) == n0 && total_messages(&list, KM) == total0);
+        }
+    }
+    kani::cover!(qualified && idx.is_some());
+    kani::cover!(qualified && idx.is_none());
+    core::mem::forget(list);
+}
+#[kani::proof]
+#[kani::unwind(9)]
+#[kani::stub(ForeignMaster::register_announce_message, ForeignMaster::verif_rec_register)]
+fn c06_list_register_hands_age_to_record__one_single() { c06_list_register_hands_age_to_record_on([1, 0]) }
+#[kani::proof]
+#[kani::unwind(9)]
+#[kani::stub(ForeignMaster::register_announce_message, ForeignMaster::verif_rec_register)]
+fn c06_list_register_hands_age_to_record__pair_and_single() { c06_list_register_hands_age_to_record_on([2, 1]) }
+
+/// ForeignMaster::register_announce_message == purge; then the new (header, message, age) is the newest stored
+/// message and the surviving older ones keep their order. Instances: record with n = 0 or 2 messages before the
+/// call, purge removing nothing or everything.
+fn c06_record_register_appends_on(n: usize, purge_all: bool) {
+    let sender = any_port_identity();
+    let mut fm = ForeignMaster { foreign_master_port_identity: sender, announce_messages: ArrayVec::new() };
+    let mut k = 0;
+    while k < 2 {
+        if k < n { fm.announce_messages.push(any_stored_message(sender, 1i128 << 100)); }
+        k += 1;
+    }
+    unsafe { PURGE_DROPS = purge_all as usize; }
+    let left = if purge_all { 0 } else { n };
+    let newest_before = if n > 0 { Some(fm.announce_messages[n - 1].header.sequence_id) } else { None };
+    let a = any_arrival();
+    let h = any_header();
+    let age: i128 = kani::any();
+    kani::assume(age >= 0 && age < (1i128 << 100));
+
+    fm.register_announce_message(h, a, any_time_interval(), dur_from_bits(age));
+
+    assert!(fm.announce_messages.len() == left + 1);
+    let newest = &fm.announce_messages[left];
+    assert!(newest.header == h && newest.message == a && dur_bits(newest.age) == age);
+    if left > 0 { assert!(Some(fm.announce_messages[left - 1].header.sequence_id) == newest_before); }
+    assert!(fm.foreign_master_port_identity == sender);
+    kani::cover!();
+    core::mem::forget(fm);
+}
+#[kani::proof]
+#[kani::unwind(9)]
+#[kani::stub(ForeignMaster::purge_old_messages, ForeignMaster::verif_stub_purge)]
+fn c06_record_register_appends_with_given_age__empty() { c06_record_register_appends_on(0, false) }
+#[kani::proof]
+#[kani::unwind(9)]
+#[kani::stub(ForeignMaster::purge_old_messages, ForeignMaster::verif_stub_purge)]
+fn c06_record_register_appends_with_given_age__pair_kept() { c06_record_register_appends_on(2, false) }
+#[kani::proof]
+#[kani::unwind(9)]
+#[kani::stub(ForeignMaster::purge_old_messages, ForeignMaster::verif_stub_purge)]
+fn c06_record_register_appends_with_given_age__pair_purged() { c06_record_register_appends_on(2, true) }
+
+/// CONCRETE-PAYLOAD INSTANCE at capacity: a record holding MAX_ANNOUNCE_MESSAGES messages drops its oldest and
+/// stores the new one, with its age, as the newest.
+#[kani::proof]
+#[kani::unwind(10)]
+#[kani::stub(ForeignMaster::purge_old_messages, ForeignMaster::verif_stub_purge)]
+fn c06_record_register_at_capacity_drops_oldest() {
+    let sender = PortIdentity { clock_identity: ClockIdentity([2; 8]), port_number: 1 };
+    let mut fm = ForeignMaster { foreign_master_port_identity: sender, announce_messages: ArrayVec::new() };
+    let mut k: u16 = 0;
+    while k < MAX_ANNOUNCE_MESSAGES as u16 {
+        let mut m = fixed_announce();
+        m.header.source_port_identity = sender;
+        m.header.sequence_id = 100 + k;
+        fm.announce_messages.push(ForeignAnnounceMessage { header: m.header, message: m, age: dur_from_bits(1000 * k as i128) });
+        k += 1;
+    }
+    unsafe { PURGE_DROPS = 0; }
+    let mut a = fixed_announce();
+    a.header.source_port_identity = sender;
+    a.header.sequence_id = kani::any();
+    let age: i128 = kani::any();
+    kani::assume(age >= 0 && age < (1i128 << 100));
+    fm.register_announce_message(a.header, a, any_time_interval(), dur_from_bits(age));
+    assert!(fm.announce_messages.len() == MAX_ANNOUNCE_MESSAGES);
+    let newest = &fm.announce_messages[MAX_ANNOUNCE_MESSAGES - 1];
+    assert!(newest.header.sequence_id == a.header.sequence_id && dur_bits(newest.age) == age);
+    assert!(fm.announce_messages[0].header.sequence_id == 101);
+    assert!(fm.announce_messages[MAX_ANNOUNCE_MESSAGES - 2].header.sequence_id == 100 + MAX_ANNOUNCE_MESSAGES as u16 - 1);
+    core::mem::forget(fm);
+}
+
+
+// ---- modular contracts for ageing / expiry ----
+pub(crate) static mut STEP_CALLS: usize = 0;
+pub(crate) static mut STEP_EMPTIED: [bool; 4] = [false; 4];
+pub(crate) static mut STEP_ARGS_OK: bool = true;
+pub(crate) static mut STEP_EXPECT: Option<(i128, TimeInterval)> = None;
+impl ForeignMaster {
+    /// stand-in for ForeignMaster::step_age in the list-level harness: checks that the list passes its own step
+    /// and announce interval, and answers "this record is now empty" arbitrarily (remembering the answer).
+    /// Contract it stands for: c06_record_step_age_* below.
+    pub(crate) fn verif_stub_step_age(&mut self, step: Duration, announce_interval: TimeInterval) -> bool {
+        let emptied: bool = kani::any();
+        unsafe {
+            if let Some((s, i)) = STEP_EXPECT { if dur_bits(step) != s || announce_interval != i { STEP_ARGS_OK = false; } }
+            if STEP_CALLS < 4 { STEP_EMPTIED[STEP_CALLS] = emptied; }
+            STEP_CALLS += 1;
+        }
+        emptied
+    }
+    /// recording stand-in for purge_old_messages in the record-level step_age harness
+    pub(crate) fn verif_rec_purge(&mut self, announce_interval: TimeInterval) -> bool {
+        unsafe { REC_CALLS += 1; REC_INTERVAL = Some(announce_interval); }
+        self.announce_messages.is_empty()
+    }
+}
+
+/// ForeignMaster::purge_old_messages: exactly the messages younger than 4 announce intervals survive, in order;
+/// the result says whether the record is empty. Instances: n = 1, 2 stored messages, arbitrary ages / interval.
+fn c06_record_purge_on(n: usize) -> (bool, bool) {
+    let sender = any_port_identity();
+    let interval = any_time_interval();
+    kani::assume(interval.0.to_bits() > 0 && interval.0.to_bits() < (1i64 << 58));
+    let cutoff = spec_cutoff_bits(interval);
+    let mut fm = ForeignMaster { foreign_master_port_identity: sender, announce_messages: ArrayVec::new() };
+    let mut k = 0;
+    while k < 2 {
+        if k < n { fm.announce_messages.push(any_stored_message(sender, 1i128 << 100)); }
+        k += 1;
+    }
+    let a0 = dur_bits(fm.announce_messages[0].age);
+    let s0 = fm.announce_messages[0].header.sequence_id;
+    let (a1, s1) = if n > 1 { (dur_bits(fm.announce_messages[1].age), fm.announce_messages[1].header.sequence_id) } else { (cutoff, 0) };
+
+    let empty = fm.purge_old_messages(interval);
+
+    let keep0 = a0 < cutoff;
+    let keep1 = n > 1 && a1 < cutoff;
+    assert!(fm.announce_messages.len() == keep0 as usize + keep1 as usize);
+    assert!(empty == (!keep0 && !keep1));
+    if keep0 {
+        assert!(fm.announce_messages[0].header.sequence_id == s0 && dur_bits(fm.announce_messages[0].age) == a0);
+        if keep1 { assert!(fm.announce_messages[1].header.sequence_id == s1 && dur_bits(fm.announce_messages[1].age) == a1); }
+    } else if keep1 {
+        assert!(fm.announce_messages[0].header.sequence_id == s1 && dur_bits(fm.announce_messages[0].age) == a1);
+    }
+    core::mem::forget(fm);
+    (keep0, keep1)
+}
+#[kani::proof]
+#[kani::unwind(9)]
+#[kani::stub(<Duration as core::ops::Mul<u16>>::mul, stub_mul_window)]
+fn c06_record_purge_keeps_exactly_the_young__single() { let r = c06_record_purge_on(1); kani::cover!(r.0); kani::cover!(!r.0); }
+// NOT DISCHARGED (CBMC exhausts 48 GB in ArrayVec::retain over two 250-byte elements); kept for a bigger machine:
+// #[kani::proof] #[kani::unwind(9)] #[kani::stub(<Duration as core::ops::Mul<u16>>::mul, stub_mul_window)]
+#[allow(dead_code)]
+fn c06_record_purge_keeps_exactly_the_young__pair() { let r = c06_record_purge_on(2); kani::cover!(r.0 && !r.1); kani::cover!(!r.0 && r.1); kani::cover!(!r.0 && !r.1); }
+
+/// ForeignMaster::step_age: every stored age grows by exactly `step`, then purge_old_messages(interval) runs
+/// once and its answer is returned. BOUND: record with <= 2 messages.
+#[kani::proof]
+#[kani::unwind(9)]
+#[kani::stub(ForeignMaster::purge_old_messages, ForeignMaster::verif_rec_purge)]
+fn c06_record_step_age_adds_step_then_purges() {
+    let sender = any_port_identity();
+    let interval = any_time_interval();
+    let n: usize = if kani::any() { 1 } else { 2 };
+    let mut fm = ForeignMaster { foreign_master_port_identity: sender, announce_messages: ArrayVec::new() };
+    let mut k = 0;
+    while k < 2 {
+        if k < n { fm.announce_messages.push(any_stored_message(sender, 1i128 << 100)); }
+        k += 1;
+    }
+    let a0 = dur_bits(fm.announce_messages[0].age);
+    let a1 = if n > 1 { dur_bits(fm.announce_messages[1].age) } else { 0 };
+    let step: i128 = kani::any();
+    kani::assume(step >= 0 && step < (1i128 << 100));
+    rec_reset();
+    let r = fm.step_age(dur_from_bits(step), interval);
+    assert!(rec_calls() == 1 && unsafe { REC_INTERVAL } == Some(interval));
+    assert!(!r && fm.announce_messages.len() == n);
+    assert!(dur_bits(fm.announce_messages[0].age) == a0 + step);
+    if n > 1 { assert!(dur_bits(fm.announce_messages[1].age) == a1 + step); }
+    kani::cover!(n == 2);
+    core::mem::forget(fm);
+}
+
+/// ForeignMasterList::step_age: every record is stepped once with the list's own step and announce interval;
+/// exactly the records reported empty are removed, the others stay in order.
+fn c06_list_step_age_on(shape: [usize; 2]) -> (bool, bool) {
+    let own = any_port_identity();
+    let interval = any_time_interval();
+    let mut list = list_of_shape(own, interval, shape);
+    let n0 = n_masters(&list);
+    let s_a = if n0 > 0 { Some(sender_of(&list, 0)) } else { None };
+    let s_b = if n0 > 1 { Some(sender_of(&list, 1)) } else { None };
+    let step: i128 = kani::any();
+    kani::assume(step >= 0 && step < (1i128 << 100));
+    unsafe { STEP_CALLS = 0; STEP_ARGS_OK = true; STEP_EXPECT = Some((step, interval)); STEP_EMPTIED = [false; 4]; }
+
+    list.step_age(dur_from_bits(step));
+
+    assert!(unsafe { STEP_CALLS } == n0 && unsafe { STEP_ARGS_OK });
+    // the loop runs from the last record to the first: call k is record n0-1-k
+    let gone_a = n0 > 0 && unsafe { STEP_EMPTIED[n0 - 1] };
+    let gone_b = n0 > 1 && unsafe { STEP_EMPTIED[0] };
+    assert!(n_masters(&list) == n0 - gone_a as usize - gone_b as usize);
+    if let Some(s) = s_a { assert!(index_of(&list, s, KM).is_some() == !gone_a); }
+    if let Some(s) = s_b { assert!(index_of(&list, s, KM).is_some() == !gone_b); }
+    if n0 == 2 && !gone_a && !gone_b { assert!(sender_of(&list, 0) == s_a.unwrap() && sender_of(&list, 1) == s_b.unwrap()); }
+    core::mem::forget(list);
+    (gone_a, gone_b)
+}
+#[kani::proof]
+#[kani::unwind(9)]
+#[kani::stub(ForeignMaster::step_age, ForeignMaster::verif_stub_step_age)]
+fn c06_list_step_age_removes_exactly_the_emptied__one_single() { let r = c06_list_step_age_on([1, 0]); kani::cover!(r.0); kani::cover!(!r.0); }
+// NOT DISCHARGED (CBMC exhausts 48 GB in ArrayVec::remove over two 2 KB records); kept for a bigger machine:
+// #[kani::proof] #[kani::unwind(9)] #[kani::stub(ForeignMaster::step_age, ForeignMaster::verif_stub_step_age)]
+#[allow(dead_code)]
+fn c06_list_step_age_removes_exactly_the_emptied__two_singles() { let r = c06_list_step_age_on([1, 1]); kani::cover!(r.0 && !r.1); kani::cover!(!r.0 && r.1); }
